@@ -141,7 +141,7 @@ func setDiff(a, b map[string]bool) []string {
 func C05(tier string) {
 	run := core.NewRun("C05", tier)
 	var progs []diffProgram
-	links := gen.AllLinks(nil, []string{"conc"})
+	links := gen.AllLinks(nil, []string{"conc", "guard"})
 	r := core.NewRNG(run.SeedV, "c05-"+tier)
 	nGen := 4
 	if tier == "thorough" {
